@@ -19,6 +19,9 @@ from . import common as cm
 EXT = ("crypto_stream_chacha20_ietf_ext", "crypto_stream_chacha20_ietf_ext_xor_ic", "crypto_stream_chacha20_ietf_ext_xor")
 
 
+ALSO_PORTABLE = True
+
+
 def run(ctx, chk):
     prog = ctx.prog()
     cg = prog.callgraph()
